@@ -394,14 +394,24 @@ class JSFunction:
         return f"[Function: {self.name}]" if self.name else "[Function (anonymous)]"
 
 
+def compile_regexp(pattern: str, flags: str = "", poll_callback=None):
+    """Compile a pattern with the regex engine; an invalid pattern is a SyntaxError."""
+    from .regex import RegExp as InternalRegExp, RegExpError
+    from .errors import JSSyntaxError
+
+    try:
+        return InternalRegExp(pattern, flags, poll_callback)
+    except RegExpError as e:
+        raise JSSyntaxError(f"Invalid regular expression: /{pattern}/: {e}")
+
+
 class JSRegExp(JSObject):
     """JavaScript RegExp object."""
 
     def __init__(self, pattern: str, flags: str = "", poll_callback=None):
         super().__init__()
-        from .regex import RegExp as InternalRegExp, MatchResult
 
-        self._internal = InternalRegExp(pattern, flags, poll_callback)
+        self._internal = compile_regexp(pattern, flags, poll_callback)
         self._pattern = pattern
         self._flags = flags
 
